@@ -187,3 +187,48 @@ Example C02_axb_is_generated :
   end /\ nest (VTok B) [X1; X2; X1] = VList [VList [VList [VTok B; VTok X1]; VTok X2]; VTok X1].
 Proof. vm_compute. split; reflexivity. Qed.
 Print Assumptions C02_axb_is_generated.
+
+(* INDIRECT left recursion, for all inputs (Proofs/GrowIndirect.v):   a: c 'x' | 'b' ;  c: a .   The analysis makes a the
+   leader (it grows the seed) and c a logged, uncached member.  On any module with these two methods, for every number
+   of x tokens: entered at the leader a, or at the other member c, the result on  b x ... x y rest  (y not an x) is the
+   left-nested tree and the position after the last x.  In each growth round a's first alternative calls c, c calls a,
+   and a's decorator replays the current seed from the cache. *)
+From Pegen Require Import Proofs.GrowIndirect.
+Theorem C02_indirect_cycle_entered_at_the_leader :
+  forall K toks M b y xs rest fuel,
+  find_meth M "a" = Some ind_a -> find_meth M "c" = Some ind_c ->
+  toks = b :: xs ++ y :: rest -> tstr b = "b" -> Forall (fun t => tstr t = "x") xs -> tstr y <> "x" ->
+  List.length xs + 4 <= fuel ->
+  exists st', run K toks false false M ind_aeval [] [] fuel "a" init_state = (Ok (nest (VTok b) xs), st') /\
+              pos st' = S (List.length xs).
+Proof.
+  intros K toks M b y xs rest fuel Ha Hc H1 H2 H3 H4 H5.
+  destruct (ind_accepts_at_a K toks M Ha Hc b y xs rest H1 H2 H3 H4 fuel H5) as (st' & E & P & _). exists st'. split; assumption.
+Qed.
+Print Assumptions C02_indirect_cycle_entered_at_the_leader.
+
+Theorem C02_indirect_cycle_entered_at_another_member :
+  forall K toks M b y xs rest fuel,
+  find_meth M "a" = Some ind_a -> find_meth M "c" = Some ind_c ->
+  toks = b :: xs ++ y :: rest -> tstr b = "b" -> Forall (fun t => tstr t = "x") xs -> tstr y <> "x" ->
+  List.length xs + 5 <= fuel ->
+  exists st', run K toks false false M ind_aeval [] [] fuel "c" init_state = (Ok (nest (VTok b) xs), st') /\
+              pos st' = S (List.length xs).
+Proof. intros K toks M b y xs rest fuel Ha Hc H1 H2 H3 H4 H5. exact (ind_accepts_at_c K toks M Ha Hc b y xs rest H1 H2 H3 H4 fuel H5). Qed.
+Print Assumptions C02_indirect_cycle_entered_at_another_member.
+
+Definition g_ind : grammar :=
+  {| rules := [{| rname := "start"; rtype := None; rmemo := false;
+                  rrhs := Rhs 1 [Alt [ni_axb 2 (NameLeaf "c"); ni_axb 3 (NameLeaf "NEWLINE")] None] |};
+               {| rname := "a"; rtype := None; rmemo := false;
+                  rrhs := Rhs 4 [Alt [ni_axb 5 (NameLeaf "c"); ni_axb 6 (StringLeaf "'x'")] None; Alt [ni_axb 7 (StringLeaf "'b'")] None] |};
+               {| rname := "c"; rtype := None; rmemo := false; rrhs := Rhs 8 [Alt [ni_axb 9 (NameLeaf "a")] None] |}];
+     metas := [] |}.
+Example C02_indirect_is_generated :
+  match generate [] [] "" "" "g" 100 g_ind {| a_nullable := []; a_item_nullable := []; a_graph := [("start", ["c"]); ("a", ["c"]); ("c", ["a"])];
+                                               a_left_rec := ["a"; "c"]; a_leaders := ["a"] |} with
+  | inl M => find_meth M "a" = Some ind_a /\ find_meth M "c" = Some ind_c
+  | inr _ => False
+  end.
+Proof. vm_compute. split; reflexivity. Qed.
+Print Assumptions C02_indirect_is_generated.
